@@ -78,13 +78,22 @@ def abs_value(v, memo=None, depth=0):
                                       raw.hex() if v.size < 4096 else hash(raw)]]
     if sp is not None and sp.issparse(v):
         c = v.tocoo()
+        # the stored structure too (duplicates, index order): a matrix must not be canonicalised behind the caller's back
+        if v.format in ("csr", "csc", "bsr"):
+            raw = [v.indptr.tolist(), v.indices.tolist(), np.asarray(v.data).tobytes().hex() if v.data.size < 2048 else hash(np.asarray(v.data).tobytes())]
+        elif v.format == "coo":
+            raw = [v.row.tolist(), v.col.tolist(), v.data.tobytes().hex() if v.data.size < 2048 else hash(v.data.tobytes())]
+        else:
+            raw = None
         return ["obj", me, tname(t), ["sparse", v.format, list(v.shape), v.dtype.str,
-                                      sorted(zip(c.row.tolist(), c.col.tolist(), [abs_value(x)[-1] for x in c.data]))]]
+                                      sorted(zip(c.row.tolist(), c.col.tolist(), [abs_value(x)[-1] for x in c.data])), raw]]
     if isinstance(v, np.random.RandomState):
         st = v.get_state(legacy=False)
         return ["obj", me, tname(t), ["rng", abs_value(st, memo, depth + 1)]]
     if isinstance(v, np.random.Generator):
-        return ["obj", me, tname(t), ["rng", type(v.bit_generator).__name__, abs_value(v.bit_generator.state, memo, depth + 1)]]
+        ss = getattr(v.bit_generator, "seed_seq", None)
+        ss_state = abs_value(ss.state, memo, depth + 1) if ss is not None and hasattr(ss, "state") else None
+        return ["obj", me, tname(t), ["rng", type(v.bit_generator).__name__, abs_value(v.bit_generator.state, memo, depth + 1), ss_state]]
     if t is bytearray:
         return ["obj", me, "builtins.bytearray", bytes(v).hex()]
     if isinstance(v, (list, tuple, collections.deque)):
